@@ -854,18 +854,42 @@ def write_evidence(pid, tier, cfg, units, results, obl, discharged, undecided, v
 def replay(pid, path):
     rec = json.load(open(path))
     if "playback_test" not in rec:
+        # no failing input was found when this file was written: show what the verifier said then, and
+        # re-decide the named obligation against the CURRENT tree (exit 1 iff it still fails)
         log(f"replay file has no concrete input (obligation {rec.get('obligation')}): "
             f"{rec.get('failed_obligation') or rec.get('failed_checks')}")
+        log("---- verifier output recorded with the violation ----")
         log((rec.get("verifier_output") or "")[-2000:])
-        return 1
+        log("---- re-checking the obligation against the current tree ----")
+        ob = (rec.get("obligation") or "").split(".", 1)[-1]
+        if not ob:
+            return 1
+        if ob.startswith("verus."):
+            os.environ["VERIF_ONLY"] = "__none__"
+        else:
+            os.environ["VERIF_ONLY"] = ob
+        try:
+            rc, _ = run_property(pid, "thorough", evidence=False)
+        finally:
+            os.environ.pop("VERIF_ONLY", None)
+        return rc
     units = load_units()
     u = units[rec["unit"]]
+    needed = [u]
+    changed = True
+    while changed:  # transitive closure of requires-unit (the unit's helpers live in other units)
+        changed = False
+        for x in list(needed):
+            for r in x.requires:
+                if units[r] not in needed:
+                    needed.append(units[r])
+                    changed = True
     scratch = make_scratch(pid + "-replay")
     logdir = os.path.join(VERIF, "logs", f"{pid}-replay")
     os.makedirs(logdir, exist_ok=True)
     target = os.path.join(CACHE, "kani-target")
     try:
-        inject(scratch, [u])
+        inject(scratch, needed)
         nr = native_replay(scratch, target, u, rec["playback_test"], rec["playback_test_name"], logdir)
     finally:
         shutil.rmtree(scratch, ignore_errors=True)
